@@ -145,7 +145,8 @@ func (w *keyWrapper) WrapKey(cek []byte, opts any) ([]byte, error) {
 // UnwrapKey unwraps cek with AWS Key Wrap algorithm
 // defined in RFC 3394.
 func (w *keyWrapper) UnwrapKey(data []byte, opts any) ([]byte, error) {
-	if len(data)%chunkLen != 0 {
+	// the wrapped key consists of the integrity check value and at least one block of key data.
+	if len(data)%chunkLen != 0 || len(data) < chunkLen*2 {
 		return nil, fmt.Errorf("akw: invalid CEK length: %d", len(data))
 	}
 	if !w.canUnwrap {
